@@ -628,7 +628,9 @@ func runC07(w *core.W) {
 	// call or an operator does with a container or a number of the caller (convert it for a parameter, normalise
 	// it, truncate it, negate it), it does on a copy
 	names := append(append([]string{}, stdNames...), "m.k", "m.b", "m.name", "st.M")
-	callT := []string{"%f(%x)", "%f(%x, %x)", "%f(1, %x)", "%f(%x...)", "%f(1, %x...)", "%f(%x, %x, %x, %x)", "$v = %x, %f($v...)", "$v = %x, [%f($v), %f($v, $v, $v, $v), $v]", "%f([%x][0]...)"}
+	callT := []string{"%f(%x)", "%f(%x, %x)", "%f(1, %x)", "%f(%x...)", "%f(1, %x...)", "%f(%x, %x, %x, %x)", "$v = %x, %f($v...)", "$v = %x, [%f($v), %f($v, $v, $v, $v), $v]", "%f([%x][0]...)",
+		// an operator applied directly to the call (what the call hands back may be its argument itself)
+		"-%f(%x)", "-%f(%x, 1)", "~%f(%x)", "!%f(%x)", "+%f(%x)", "%f(%x) + 1", "%f(%x, 0) * 2 - %f(%x, 0)", "1 - %f(%x)", "-%f(%f(%x))", "[-%f(%x), %x]", "$v = %x, -%f($v, 0), $v"}
 	opT := []string{"~%x", "-%x", "+%x", "!%x", "%x + %x", "%x * 1", "%x % 2", "%x & %x", "%x | 1", "%x ^ %x", "[%x][0]", "%x ?? 1", "%x == %x", "%x < 1", "typeof %x", "%x ? %x : %x", "$v = %x, ~$v, -$v, $v", "[%x, %x]", "%x + ''"}
 	fd := StdData(w.RNG("frame-data"))
 	idx := 0
